@@ -90,7 +90,11 @@ META = {
         "isinstance(X[k], <non-message classes>) in the same `and` (message nodes alone fail the class test as the empty list "
         "fails the guard). Class tests may be written through a shared one-argument class predicate (`lambda n: [not] isinstance(n, K)`, "
         "a helper defined that way, also in another module; as findall condition, filter() argument, comprehension condition or "
-        "inside all/any), and a pick by next(...) over a child list counts like a subscript. "
+        "inside all/any), and a pick by next(...) over a child list counts like a subscript; the parent of any node (`p = x.parent`) is "
+        "such a container too, and a stretch of a child list (`p.children[:i]`) is judged like the list. A shared detaching helper "
+        "(`detach(node)`: removes every system_message found below its parameter on every path, usually returning them) called on a "
+        "node counts as the removal loop wherever R8/R9 ask for one, also when reached through an untyped attribute "
+        "(`self._renderer._detach(x)`) if every function of that name is such a helper. "
         "R9: elements that docutils / Sphinx read as text before system messages are filtered are handed on without message nodes. "
         "Every `with <renderer>.current_node_context(X): render_children / nested_render_text` whose X is built as a title, caption, "
         "rubric, term or field_name (tabled with the collector that reads each), a paragraph that becomes a field_body "
@@ -2793,7 +2797,13 @@ def _strips_messages(fi: FunctionInfo, recv_text: str, before: ast.AST) -> bool:
             v = n.target.id
             if any(isinstance(c, ast.Call) and isinstance(c.func, ast.Attribute) and c.func.attr == "remove" and unparse(c.func.value) == f"{v}.parent" and c.args and _is_name(c.args[0], v) for c in ast.walk(n)):
                 loops.append(n)
-    return any(not cfg.paths_avoiding("ENTRY", target, lambda x, lp=lp: x is lp) for lp in loops)
+    stmts = list(loops)
+    for c in _detach_calls(fi, recv_text):
+        try:
+            stmts.append(cfg.stmt_of(c))
+        except Exception:
+            pass
+    return any(not cfg.paths_avoiding("ENTRY", target, lambda x, lp=lp: x is lp) for lp in stmts if lp is not target)
 
 
 def _only_rawsource(fi: FunctionInfo, call: ast.Call) -> bool:
@@ -3006,6 +3016,8 @@ def _filtered_children(e: ast.expr, fi: FunctionInfo, depth: int = 0) -> tuple[s
         return unparse(e.value), False
     if isinstance(e, ast.Call) and isinstance(e.func, ast.Name) and e.func.id in ("list", "tuple", "reversed") and e.args:
         return _filtered_children(e.args[0], fi, depth + 1)
+    if isinstance(e, ast.Subscript) and isinstance(e.slice, ast.Slice):
+        return _filtered_children(e.value, fi, depth + 1)  # a stretch of the child list (`X.children[:i]`)
     if isinstance(e, ast.Call) and dotted(e.func) == "filter" and len(e.args) == 2:
         base, filt = _filtered_children(e.args[1], fi, depth + 1)
         if base is None:
@@ -3041,6 +3053,10 @@ def _content_containers(fi: FunctionInfo) -> dict[str, str]:
             out[n.args[2].id] = "the container a nested parse renders the directive content into"
     if "document" in fi.params:
         out["document"] = "the document root"
+    for n in fi.local_nodes():
+        # `parent = <node>.parent`: whatever holds a node of the tree may hold the message nodes rendered next to it
+        if isinstance(n, ast.Assign) and len(n.targets) == 1 and isinstance(n.targets[0], ast.Name) and isinstance(n.value, ast.Attribute) and n.value.attr == "parent":
+            out.setdefault(n.targets[0].id, "the parent of a node of the tree")
     changed = True
     while changed:  # `node = self.document` ... `node = children[-1]`: a cursor below the root
         changed = False
@@ -3249,7 +3265,7 @@ def _render_targets(fi: FunctionInfo) -> list[tuple[ast.With, str, ast.Call | No
     return out
 
 
-def _removal_loops(fi: FunctionInfo, root: str) -> list[ast.For]:
+def _removal_loops_raw(fi: FunctionInfo, root: str) -> list[ast.For]:
     """Loops that take every system_message out of ``root``'s subtree (``for m in findall(root)(sm): m.parent.remove(m)``)."""
     out = []
 
@@ -3275,6 +3291,52 @@ def _removal_loops(fi: FunctionInfo, root: str) -> list[ast.For]:
             if any(isinstance(c, ast.Call) and isinstance(c.func, ast.Attribute) and c.func.attr == "remove" and unparse(c.func.value) == f"{v}.parent" and c.args and _is_name(c.args[0], v) for c in ast.walk(n)):
                 out.append(n)
     return out
+
+
+def _detacher_param(h: FunctionInfo) -> str | None:
+    """A shared helper ``detach(node)`` that removes every system_message below the node it is given, on every path
+    (and usually returns them for the caller to place elsewhere) -> the name of that parameter."""
+    if h.is_lambda:
+        return None
+    cache = getattr(h, "_c14_detacher", "?")
+    if cache != "?":
+        return cache
+    res = None
+    for p in [q for q in h.params if q not in ("self", "cls")][:1]:
+        loops = _removal_loops_raw(h, p)
+        if loops and not _uncovered_cases(h, "ENTRY", list(loops)):
+            res = p
+    h._c14_detacher = res  # type: ignore[attr-defined]
+    return res
+
+
+def _detach_calls(fi: FunctionInfo, root: str) -> list[ast.Call]:
+    """Calls in ``fi`` of a detaching helper on ``root``."""
+    corpus = _CORPUS[0]
+    if corpus is None or fi.is_lambda:
+        return []
+    out = []
+    for c in fi.local_nodes():
+        if not (isinstance(c, ast.Call) and c.args and not isinstance(c.args[0], ast.Starred) and unparse(c.args[0]) == root and isinstance(c.func, (ast.Name, ast.Attribute))):
+            continue
+        try:
+            hs = _resolver_of(corpus)(c, fi)
+        except Exception:
+            hs = []
+        if not hs and isinstance(c.func, ast.Attribute):
+            # a method reached through an attribute the call graph cannot type (``self._renderer._detach(x)``):
+            # every function of that name in the package
+            hs = [h for h in corpus.all_functions() if not h.is_lambda and h.name == c.func.attr]
+        if hs and all(_detacher_param(h) is not None for h in hs):
+            bound = [_bind_call(c, h) for h in hs]
+            if all(b is not None and unparse(b.get(_detacher_param(h), ast.Constant(value=None))) == root for b, h in zip(bound, hs)):
+                out.append(c)
+    return out
+
+
+def _removal_loops(fi: FunctionInfo, root: str) -> list[ast.AST]:
+    """What takes every system_message out of ``root``'s subtree in ``fi``: a removal loop, or a call of a detaching helper."""
+    return list(_removal_loops_raw(fi, root)) + list(_detach_calls(fi, root))
 
 
 def _sweeper_summary(h: FunctionInfo) -> tuple[str, str | int] | None:
@@ -3536,9 +3598,12 @@ def r9_collector_read_elements(corpus: Corpus, rep: Report, tier: str):
                 if var is None or cfi.is_lambda:
                     handed = False
                     break
-                ccfg = get_cfg(cfi)
-                cl = _removal_loops(cfi, var)
-                if not any(not ccfg.paths_avoiding(p, "EXIT", lambda x, lp=lp: x is lp) for lp in cl):
+                ret_cls = {_class_of_ctor(d.value) for r in rets for d in fi.local_nodes() if isinstance(d, ast.Assign) and len(d.targets) == 1 and _is_name(d.targets[0], r.value.id) and isinstance(d.value, ast.Call)}
+                cl = list(_removal_loops(cfi, var))
+                if len(ret_cls) == 1 and None not in ret_cls:
+                    # a sweep of every <class of the container> below the container reaches the container itself
+                    cl += _sweeps_in(corpus, cfi, next(iter(ret_cls)), {var})
+                if not cl or _uncovered_cases(cfi, p, cl):
                     handed = False
                     break
             if handed:
@@ -3946,6 +4011,16 @@ def mutants(corpus: Corpus):
                 out.append(Mutant("c14-weaken-d4491dc-helper-finds-direct-child-elements-only", "C14.R9", base.rel, splice(base.src, it1, f"[e_ for e_ in [{summ[0]}, *{summ[0]}.children] if isinstance(e_, {cparam})]"), expect="term with inline content"))
         else:
             out.append(("c14-weaken-d4491dc-helper-sweeps-direct-children-only", f"{short_h} has no nested removal loop"))
+    # 6i. (seed class) the guard of the leading-transition remover classifies the nodes before the transition without naming message nodes
+    if "_DropLeadingTransition.apply" in tr.functions:
+        f = tr.func("_DropLeadingTransition.apply")
+        ic = find_node(f, lambda n: isinstance(n, ast.Call) and dotted(n.func) == "isinstance" and len(n.args) == 2 and _mentions_sm(n.args[1]) and any(isinstance(a, (ast.GeneratorExp, ast.ListComp)) for a in ancestors(n)))
+        less = _without_sm(ic.args[1]) if ic is not None else None
+        if less is not None:
+            out.append(Mutant("c14-leading-transition-guard-counts-warnings", "C14.R8", tr.rel, splice(tr.src, ic.args[1], less), expect="_DropLeadingTransition.apply"))
+            out.append(Mutant("c14-leading-transition-guard-tests-titular", "C14.R8", tr.rel, splice(tr.src, ic.args[1], "nodes.Titular"), expect="_DropLeadingTransition.apply"))
+        else:
+            out.append(("c14-leading-transition-guard-counts-warnings", "_DropLeadingTransition.apply has no isinstance(…, <classes incl. system_message>) over a child list"))
     # 6f. the class of the new known findings, at other sites
     f = base.func("DocutilsRenderer.render_heading") if "DocutilsRenderer.render_heading" in base.functions else None
     cu = find_node(base.func("DocutilsRenderer.generate_heading_target"), lambda n: isinstance(n, ast.Call) and dotted(n.func) == "clean_astext") if "DocutilsRenderer.generate_heading_target" in base.functions else None
